@@ -220,9 +220,37 @@ func errorPropagated(fn *ssa.Function, after ssa.Instruction, r ssa.Value) (bool
 				if isR(op) || ir.Origin(op) == ir.Origin(r) {
 					return
 				}
-				switch op.(type) {
-				case *ssa.Call, *ssa.MakeInterface:
+				switch y := op.(type) {
+				case *ssa.MakeInterface:
 					return // constructed (non-nil) error
+				case *ssa.Call:
+					// a constructor of errors yields a non-nil one; any other call (ctx.Err(), a helper that may
+					// answer nil) does not: returning its result where r is non-nil can report success
+					if sc := ir.Callee(y.Call); sc != nil && (sc.String() == "fmt.Errorf" || sc.String() == "errors.New") {
+						return
+					}
+					if sc := ir.Callee(y.Call); sc != nil && sc.Blocks != nil {
+						nonNil := true
+						hei := ir.ErrorResultIndex(sc.Signature)
+						for _, hr := range ir.Returns(sc) {
+							if hei < 0 || hei >= len(hr.Results) {
+								nonNil = false
+								continue
+							}
+							switch z := hr.Results[hei].(type) {
+							case *ssa.MakeInterface:
+							case *ssa.Call:
+								if zc := ir.Callee(z.Call); zc == nil || (zc.String() != "fmt.Errorf" && zc.String() != "errors.New") {
+									nonNil = false
+								}
+							default:
+								nonNil = false
+							}
+						}
+						if nonNil && sc.Signature.Results().Len() == 1 {
+							return // a wrapping helper of the repository that always builds an error
+						}
+					}
 				}
 				if isSentinel(op) {
 					return // a package-level error value
